@@ -1,0 +1,57 @@
+//! Verification hooks: re-exports of crate-private items and a recorder for in-run offspring creation.
+//! Compiled only with the cargo feature `verif-hooks`; nothing here changes behaviour.
+pub use crate::algorithm::{AlgoContext, IndContext};
+pub use crate::detailed_report::DetailedReportItem;
+pub use crate::path::{PathContext, PathNodeContext};
+pub use crate::selection::{Selection, SelectionImpl};
+use crate::meta::{CrossoverParams, MutationParams};
+use rand::rngs::StdRng;
+use std::cell::RefCell;
+
+pub fn meta_adapt_create_exploratory(rng: &mut StdRng) -> (CrossoverParams, MutationParams) {
+    crate::meta_adapt::create_exploratory(rng)
+}
+
+pub fn meta_adapt_mutate(
+    crossover_params: CrossoverParams,
+    mutation_params: MutationParams,
+    rng: &mut StdRng,
+) -> (CrossoverParams, MutationParams) {
+    crate::meta_adapt::mutate(crossover_params, mutation_params, rng)
+}
+
+/// One call of `AlgoContext::create_offspring`.
+#[derive(Clone, Debug)]
+pub struct OffspringRecord {
+    pub parents: Vec<serde_json::Value>,
+    pub parent_values: Vec<crate::value::Value>,
+    pub source: String,
+    pub crossover_prob: f64,
+    pub selection_pressure: f64,
+    pub mutation_prob: f64,
+    pub mutation_scale: f64,
+    pub crossover_result: crate::value::Value,
+    pub mutation_result: crate::value::Value,
+}
+
+thread_local! {
+    static OFFSPRING_LOG: RefCell<Option<Vec<OffspringRecord>>> = RefCell::new(None);
+}
+
+/// Start recording offspring creation on this thread (clears earlier records).
+pub fn offspring_log_enable() {
+    OFFSPRING_LOG.with(|l| *l.borrow_mut() = Some(Vec::new()));
+}
+
+/// Take the records gathered so far on this thread.
+pub fn offspring_log_take() -> Vec<OffspringRecord> {
+    OFFSPRING_LOG.with(|l| l.borrow_mut().as_mut().map(std::mem::take).unwrap_or_default())
+}
+
+pub(crate) fn offspring_log_push(make: impl FnOnce() -> OffspringRecord) {
+    OFFSPRING_LOG.with(|l| {
+        if let Some(log) = l.borrow_mut().as_mut() {
+            log.push(make());
+        }
+    });
+}
